@@ -34,8 +34,8 @@ TECHNIQUE = ("Hypothesis-generated fault/event scenarios (faults and events anch
              "EngineRunner/EngineDispatcher.send_async in a virtual-time asyncio loop with a FIFO fake transport; history oracle "
              "over posts, wire attempts and deliveries")
 RULE = ("A scenario = method, engine events (absolute or anchored at the n-th entry into a runner state), <=3 outages, "
-        "<=5 per-attempt faults (lost / ack-lost / latency 0..2 s, absolute or anchored attempt index), connect outcomes, back-off "
-        "draws, default latency, tick phase. Non-trivial = the runner entered Failed while an engine run was active, >=1 message "
+        "<=4 (thorough <=8) per-attempt faults (lost / ack-lost / latency 0..2 s, absolute or anchored attempt index), <=5 connect "
+        "outcomes, <=5 back-off draws, default latency, tick phase. Non-trivial = the runner entered Failed while an engine run was active, >=1 message "
         "was buffered and the scenario ended settled (so every clause was judged). Distinct = distinct scenario JSON.")
 ASSUMPTIONS = [
     "one connection is a FIFO stream (fastapi_websocket_rpc handles requests sequentially); a lost request/response means the "
@@ -50,6 +50,9 @@ ASSUMPTIONS = [
     "run_coroutine_threadsafe as well); the engine starts ticking at the first steady state, like production",
     "scenarios that do not settle within 90 s of fault-free tail are counted (class unsettled:<state>) and judged only for "
     "duplicates / sequence numbers / order",
+    "a message that was in flight when the connection broke (produced in a posting state, its only attempt failed) is judged like a "
+    "message produced while disconnected: the runner knows the attempt failed, and the statement's resend clause presupposes that "
+    "failed attempts are re-queued",
 ]
 TIERS = {
     "quick": {"examples": 1600, "budget_s": 150, "max_runs": 2, "max_faults": 4},
